@@ -277,6 +277,14 @@ func (s *Sim) writeAtomic(n *Node, snap *pb.Snapshot, ents []*pb.Entry, hs *pb.H
 			return true
 		}
 		s.Stats.inc("snap.installed")
+		// the storage now starts exactly at the snapshot (C09: the snapshot's
+		// index and term are the node's new log base; C18: ApplySnapshot)
+		si, st := snap.GetMetadata().GetIndex(), snap.GetMetadata().GetTerm()
+		if t, ok := n.Disk.termAt(si); n.Disk.first() != si+1 || n.Disk.last() != si || !ok || t != st {
+			s.Mon.viol([]string{"C09", "C18"}, "storage_starts_at_snapshot", "c09.storage_not_reset_by_snapshot",
+				"node %d: after ApplySnapshot(%d,%d) the storage spans [%d,%d] with term %d (known=%v) at the snapshot index",
+				n.ID, si, st, n.Disk.first(), n.Disk.last(), t, ok)
+		}
 		n.SM.reset(snap.GetMetadata().GetIndex(), leU64(snap.GetData()), confFromCS(snap.GetMetadata().GetConfState()))
 		n.SM.DurableApplied = snap.GetMetadata().GetIndex()
 	}
